@@ -217,6 +217,10 @@ def f_mathml(m, t, a, r, pre):
         t["mismatch"].append("is_mathml_annotation_xml_integration_point answers %r, the model %r" % (got, r))
 
 
+def f_clone_option(m, t, a, r, pre):
+    rc_call(m, "maybe_clone_an_option_into_selectedcontent", [_sinkp(t), Ptr([H2(t, a[1])], 0)])
+
+
 def f_same(m, t, a, r, pre):
     got = rc_call(m, "same_node", [_sinkp(t), Ptr([H2(t, a[1])], 0), Ptr([H2(t, a[2])], 0)])
     if bool(got) != bool(r):
@@ -229,7 +233,7 @@ for _k, _f in (("create_element_with_flags", f_create_element), ("create_element
                ("<Sink as TreeSink>::add_attrs_if_missing", f_add_attrs), ("<Sink as TreeSink>::remove_from_parent", f_remove),
                ("<Sink as TreeSink>::reparent_children", f_reparent), ("<Sink as TreeSink>::get_template_contents", f_template),
                ("<Sink as TreeSink>::set_quirks_mode", f_quirks), ("<Sink as TreeSink>::is_mathml_annotation_xml_integration_point", f_mathml),
-               ("<Sink as TreeSink>::same_node", f_same)):
+               ("<Sink as TreeSink>::same_node", f_same), ("<Sink as TreeSink>::maybe_clone_an_option_into_selectedcontent", f_clone_option)):
     _wrap(_k, _f)
 for _alias in ("markup5ever::interface::create_element", "interface::create_element", "markup5ever::interface::create_element_with_flags", "interface::create_element_with_flags"):
     MD.M[_alias] = MD.M["create_element_with_flags"]
